@@ -10,6 +10,7 @@ func main() {
 		vlib.Group{Name: "linesearch", Gen: genLinesearch},
 		vlib.Group{Name: "sched", Gen: genSched},
 		vlib.Group{Name: "reuse", Gen: genReuse},
+		vlib.Group{Name: "reusex", Gen: genReuseCross},
 		vlib.Group{Name: "special", Gen: genSpecial},
 		vlib.Group{Name: "inputs", Gen: genInputs},
 		vlib.Group{Name: "lsadv", Gen: genLSAdversarial},
